@@ -67,27 +67,38 @@ L2_IBIN = ["RModel.Impl.toBSet_iand2", "RModel.Impl.toBSet_ior2", "RModel.Impl.t
 L2_AGG = ["RModel.Impl.Rep.toBSet_fastOr", "RModel.Impl.Rep.wf_fastOr", "RModel.Impl.Rep.toBSet_fastAnd", "RModel.Impl.Rep.wf_fastAnd",
           "RModel.Impl.Rep.toBSet_andAny", "RModel.Impl.Rep.wf_andAny", "RModel.Impl.Rep.wf_repairAfterLazy",
           "RModel.Impl.Rep.toBSet_repairAfterLazy", "RModel.Impl.lazyOk_lazyIOR2", "RModel.Impl.lazyOk_lazyOR2"]
+IT = "RModel.Impl.It."
+L2_ITER = [IT + "IntIt.drain_create", IT + "IntIt.advanceIfNeeded_spec", IT + "IntIt.advance_from_cursor", IT + "IntIt.peek_eq_nextValue",
+           IT + "IntRevIt.drain_create", IT + "ManyIt.nextManySeq_create", IT + "CIt.drain_ofCont"]
+RP = "RModel.Impl.Rep."
+L2_REPMUT = [RP + n for n in ["toBSet_add", "toBSet_remove", "toBSet_addRange", "toBSet_removeRange", "toBSet_flip", "toBSet_runOptimize",
+                              "checkedAdd_snd", "checkedRemove_snd"]]
+L2_REPIBIN = [RP + n for n in ["toBSet_iand", "toBSet_ior", "toBSet_ixor", "toBSet_iandNot", "shareTail_same"]]
+L2_REPMUT_WF = [RP + n for n in ["wf_add", "wf_remove", "wf_addRange", "wf_removeRange", "wf_flip", "wf_iand", "wf_ior", "wf_ixor",
+                                 "wf_iandNot", "wf_runOptimize"]]
+L2_XFORM = [RP + n for n in ["toBSet_addOffset64", "wf_addOffset64", "toBSet_flipStatic", "wf_flipStatic", "testBit_toDense",
+                             "length_toDense", "toBSet_fromDense", "wf_fromDense", "toBSet_fromDense_toDense"]]
 L1_XFORM = ["RModel.BSet.mem_shift", "RModel.BSet.canon_shift", "RModel.BSet.mem_flipRange", "RModel.BSet.canon_xor"]
 
 PROPS = {
-    "C01": {"suites": [("alg", 1.0), ("kern", 0.3), ("kernspecial", 1.0), ("kernthresh", 0.5), ("popcnt", 1.0), ("kernl2", 0.5), ("l2rep", 0.5), ("kernmutbin", 0.3)],
-            "theorems": L1_ALGEBRA + F_THRESH + L2_CONT + L2_REP + L2_IBIN,
-            "modules": DEFAULT_MODULES + [FACTS, "RProofs.ContOps", "RProofs.RepOps", "RProofs.ContMut"],
+    "C01": {"suites": [("alg", 1.0), ("kern", 0.3), ("kernspecial", 1.0), ("kernthresh", 0.5), ("popcnt", 1.0), ("kernl2", 0.5), ("l2rep", 0.5), ("kernmutbin", 0.3), ("l2mut", 0.3)],
+            "theorems": L1_ALGEBRA + F_THRESH + L2_CONT + L2_REP + L2_IBIN + L2_REPIBIN,
+            "modules": DEFAULT_MODULES + [FACTS, "RProofs.ContOps", "RProofs.RepOps", "RProofs.ContMut", "RProofs.RepMut"],
             "owns": {"and", "or", "xor", "andnot", "iand", "ior", "ixor", "iandnot", "andcard", "orcard", "isect", "eq", "dig",
-                     "kern", "popcnt", "l2op"}},
-    "C02": {"suites": [("hist", 1.0), ("kernmut", 0.4)], "theorems": L1_MUT + L1_ALGEBRA[:3] + F_THRESH + L2_MUT,
-            "modules": DEFAULT_MODULES + [FACTS, "RProofs.ContMut"],
+                     "kern", "popcnt", "l2op", "l2iop"}},
+    "C02": {"suites": [("hist", 1.0), ("kernmut", 0.4), ("l2mut", 0.6)], "theorems": L1_MUT + L1_ALGEBRA[:3] + F_THRESH + L2_MUT + L2_REPMUT,
+            "modules": DEFAULT_MODULES + [FACTS, "RProofs.ContMut", "RProofs.RepMut"],
             "owns": {"new", "add", "cadd", "addint", "addmany", "rem", "crem", "addr", "remr", "flip", "clear", "opt", "clone",
-                     "cowclone", "detach", "setcow", "dig", "card", "empty", "of", "kern"}},
+                     "cowclone", "detach", "setcow", "dig", "card", "empty", "of", "kern", "l2mut"}},
     "C03": {"suites": [("query", 1.0), ("kernq", 0.3), ("eqpairs", 0.5), ("kernq2", 0.3)], "theorems": L1_QUERY + L2_QUERY,
             "modules": DEFAULT_MODULES + ["RProofs.ContQuery", "RProofs.ContQueryNumRuns"],
             "owns": {"card", "empty", "has", "min", "max", "rank", "sel", "cir", "iwi", "eq", "toarr", "toexarr", "chkeq", "dig", "kern", "mkrepr"}},
-    "C04": {"suites": [("iter", 1.0), ("iterun", 1.0)],
+    "C04": {"suites": [("iter", 1.0), ("iterun", 1.0), ("l2iter", 0.6)], "modules": DEFAULT_MODULES + ["RProofs.Iter", "RProofs.IterAdv", "RProofs.IterRev", "RProofs.IterMany"],
             "theorems": L1_NBR[:4] + ["RModel.BSet.rankLt_eq_count", "RModel.BSet.card_eq_rankLt", "RModel.BSet.select_spec",
                                       "RModel.BSet.select_none", "RModel.BSet.mem_toList", "RModel.BSet.toList_sorted",
-                                      "RModel.BSet.mem_inter", "RModel.BSet.mem_xor", "RModel.BSet.canon_ext"],
+                                      "RModel.BSet.mem_inter", "RModel.BSet.mem_xor", "RModel.BSet.canon_ext"] + L2_ITER,
             "owns": {"it", "rit", "mit", "uit", "reinit", "hasnext", "next?", "next!", "peek?", "peek!", "adv", "advrel", "many",
-                     "manyhs", "drain", "iterate", "values", "backward", "unset", "ranges"}},
+                     "manyhs", "drain", "iterate", "values", "backward", "unset", "ranges", "l2it", "l2reinit"}},
     "C05": {"suites": [("ser", 1.0), ("thresh", 1.0)],
             "theorems": ["RModel.Impl.encode_length", "RModel.Impl.decode_encode", "RModel.Impl.prefix_rejected",
                          "RModel.Impl.decode_no_panic", "RModel.Impl.roundtrip_wf", "RModel.BSet.canon_ext"] + F_SERIAL,
@@ -111,11 +122,11 @@ PROPS = {
             "theorems": ["RModel.Impl.safe_unflagged_not_foreign", "RModel.Impl.safe_addZeroCopy", "RModel.Impl.gate_not_foreign",
                          "RModel.Impl.detach_no_foreign'", "RModel.Impl.safe_reachable", "RModel.Impl.hdrLocal_run"],
             "owns": None},
-    "C09": {"suites": [("hist", 1.0), ("alg", 0.7), ("xform", 0.7), ("ser", 0.5), ("kernwf", 1.0), ("kernthresh", 1.0), ("thresh", 0.5), ("agg", 0.5), ("kernl2", 0.5), ("l2rep", 0.3), ("kernmut", 0.3)],
-            "theorems": ["RModel.Impl.wf_implies_validate", "RModel.Impl.validate_implies_wf_of_decoded", "RModel.BSet.canon_ext"] + F_THRESH + L2_CONT[4:8] + L2_REP[5:] + L2_MUT_WF,
-            "modules": DEFAULT_MODULES + [FACTS, "RProofs.Properties.C09", "RProofs.ContOps", "RProofs.RepOps", "RProofs.ContMut"],
+    "C09": {"suites": [("hist", 1.0), ("alg", 0.7), ("xform", 0.7), ("ser", 0.5), ("kernwf", 1.0), ("kernthresh", 1.0), ("thresh", 0.5), ("agg", 0.5), ("kernl2", 0.5), ("l2rep", 0.3), ("kernmut", 0.3), ("l2mut", 0.3), ("l2xform", 0.3)],
+            "theorems": ["RModel.Impl.wf_implies_validate", "RModel.Impl.validate_implies_wf_of_decoded", "RModel.BSet.canon_ext"] + F_THRESH + L2_CONT[4:8] + L2_REP[5:] + L2_MUT_WF + L2_REPMUT_WF + [L2_XFORM[1], L2_XFORM[3], L2_XFORM[7]],
+            "modules": DEFAULT_MODULES + [FACTS, "RProofs.Properties.C09", "RProofs.ContOps", "RProofs.RepOps", "RProofs.ContMut", "RProofs.RepMut", "RProofs.RepXform"],
             # a library-written stream read back must validate: `rd` lines whose Go side reports an invalid bitmap are C09's
-            "owns_fn": lambda op, mm, suite: op in ("wf", "kernwf", "l2op") or (op == "rd" and "invalid:" in mm.get("got", "")),
+            "owns_fn": lambda op, mm, suite: op in ("wf", "kernwf", "l2op", "l2mut", "l2iop", "l2off", "l2sflip", "l2fromdense") or (op == "rd" and "invalid:" in mm.get("got", "")),
             "owns": {"wf", "kernwf"}},
     "C10": {"suites": [("fuzzdec", 1.0), ("fuzzfrozen", 0.5)], "corpus": ["corpus/C10/frozen-bitmap4096.txt"],
             "theorems": ["RModel.Impl.decode_no_panic", "RModel.Impl.prefix_rejected", "RModel.Impl.decode_shape",
@@ -139,9 +150,10 @@ PROPS = {
             "modules": DEFAULT_MODULES + [FACTS, "RProofs.Properties.C14"], "owns": {"size"}},
     "C15": {"suites": [("nbr", 1.0), ("kernq", 0.3), ("kernq2", 0.3)], "theorems": L1_NBR + L2_NBRQ,
             "modules": DEFAULT_MODULES + ["RProofs.ContQuery"], "owns": {"nv", "pv", "nav", "pav", "kern"}},
-    "C16": {"suites": [("xform", 1.0), ("dense", 1.0), ("zc_dense", 0.5)], "theorems": L1_XFORM,
+    "C16": {"suites": [("xform", 1.0), ("dense", 1.0), ("zc_dense", 0.5), ("l2xform", 1.0)], "theorems": L1_XFORM + L2_XFORM,
+            "modules": DEFAULT_MODULES + ["RProofs.RepXform"],
             "owns": {"off", "off32", "sflip", "eq", "dense", "fromdense", "frombitset", "densechk", "dig",
-                     "zdense", "zfromdense", "safe", "digall", "zdetach", "zsame"}},
+                     "zdense", "zfromdense", "safe", "digall", "zdetach", "zsame", "l2off", "l2sflip", "l2dense", "l2fromdense"}},
     "C17": {"suites": [("r64", 1.0)], "theorems": L1_ALGEBRA + L1_MUT[:5] + L1_QUERY[:9] + L1_NBR[:4] +
             ["RModel.Facts.r64Highbits_spec", "RModel.Facts.r64Lowbits_spec"],
             "modules": DEFAULT_MODULES + ["RProofs.Facts.Bits"], "owns": None},
